@@ -167,7 +167,11 @@ func policyMenu() map[string]*networkv1.NetworkPolicy {
 		// wider versions of two shapes under the SAME object name: going from the wide to the narrow version only removes set members
 		"in-ipblock@wide": np("ns1", "in-ipblock", sel("app", "web"), tIn, []networkv1.NetworkPolicyIngressRule{{From: []networkv1.NetworkPolicyPeer{peerBlock("10.9.0.0/16", "10.9.1.0/24", "10.9.0.5/32"), peerBlock("172.16.0.0/16")}, Ports: []networkv1.NetworkPolicyPort{port(corev1.ProtocolTCP, 80), port(corev1.ProtocolUDP, 53)}}}, nil),
 		"eg-ipblock@wide": np("ns1", "eg-ipblock", sel("app", "db"), tEg, nil, []networkv1.NetworkPolicyEgressRule{{To: []networkv1.NetworkPolicyPeer{peerBlock("10.9.0.0/16", "10.9.1.0/24", "10.9.2.7/32", "10.9.0.5/32"), peerBlock("172.16.0.0/16")}}}),
-		"eg-implicit":     np("ns1", "eg-implicit", sel("app", "db"), nil, nil, []networkv1.NetworkPolicyEgressRule{{To: []networkv1.NetworkPolicyPeer{peerPod("app", "web")}}}),
+		// a policy that isolates its pods for egress as well although it has no egress rule, and the same object with the egress
+		// type taken away: the two differ in policyTypes only
+		"in-both-types":              np("ns1", "in-both-types", sel("app", "web"), tBoth, []networkv1.NetworkPolicyIngressRule{{From: []networkv1.NetworkPolicyPeer{peerPod("role", "client")}}}, nil),
+		"in-both-types@ingress-only": np("ns1", "in-both-types", sel("app", "web"), tIn, []networkv1.NetworkPolicyIngressRule{{From: []networkv1.NetworkPolicyPeer{peerPod("role", "client")}}}, nil),
+		"eg-implicit":                np("ns1", "eg-implicit", sel("app", "db"), nil, nil, []networkv1.NetworkPolicyEgressRule{{To: []networkv1.NetworkPolicyPeer{peerPod("app", "web")}}}),
 	}
 }
 
